@@ -20,13 +20,14 @@ static std::vector<Json>& c14_table(){
   static std::vector<Json> tab;
   if(!tab.empty()) return tab;
   static const char* bin[]={"add","sub","icomm","acomm","evol","eprod","eop"};
-  for(int d1=2;d1<=6;d1++) for(int d2=2;d2<=6;d2++) if(d1!=d2) for(int variant=0;variant<2;variant++) for(int e=0;e<13;e++){
+  for(int d1=2;d1<=6;d1++) for(int d2=2;d2<=6;d2++) if(d1!=d2) for(int variant=0;variant<2;variant++) for(int e=0;e<13;e++) for(int cat=0;cat<4;cat++){
+    if(cat>0 && !(e<7)) continue;                       // operand value categories (lvalue / std::move) select different overloads of the expression entry points
     Json ops=Json::array();
     op_make(ops,0,d1,variant==1,0); op_fill(ops,0,d1*10+d2,6);
     op_make(ops,1,d2,variant==1,1); op_fill(ops,1,d2*10+d1,1);
     op_make(ops,2,d1,false,0); op_fill(ops,2,7,0);
     Json o=Json::object();
-    if(e<7){ o["op"]="stmt"; o["how"]=(e%3==0)?"=":(e%3==1?"+=":"-="); o["expr"]=bin[e]; o["t"]=2; o["a"]=0; o["b"]=1; o["ca"]=0; o["cb"]=0; o["x"]=0.5; o["flags"]=0; o["fn"]=0; o["nest"]=0; }
+    if(e<7){ o["op"]="stmt"; o["how"]=(e%3==0)?"=":(e%3==1?"+=":"-="); o["expr"]=bin[e]; o["t"]=2; o["a"]=0; o["b"]=1; o["ca"]=cat&1; o["cb"]=(cat>>1)&1; o["x"]=0.5; o["flags"]=0; o["fn"]=0; o["nest"]=0; }
     else if(e==7||e==8){ o["op"]="compound"; o["t"]=0; o["s"]=1; o["sign"]=e==7?"+":"-"; }
     else if(e==9){ o["op"]="dot"; o["a"]=0; o["b"]=1; }
     else if(e==10){ o["op"]="rotate_m"; o["a"]=0; o["d"]=d2; o["vs"]=5; }
@@ -49,8 +50,8 @@ static std::vector<Json>& c14_table(){
   static const char* fk[]={"proj","ident","pos","neg","gen"};
   for(int w=0;w<5;w++) for(int i=0;i<3;i++){ Json o=Json::object(); o["op"]="factory"; o["t"]=2; o["which"]=fk[w]; o["d"]=badd[i]; o["i"]=0; faulty.push_back(o); }
   for(int w=0;w<5;w++){ if(w==1) continue; for(int d=2;d<=6;d++){
-    int lo=(w==4)?d*d:d; int idx[4]={lo,lo+1,d*d,d*d+2};
-    for(int q=0;q<4;q++){ if(w==4&&q>=2&&idx[q]<d*d) continue; Json o=Json::object(); o["op"]="factory"; o["t"]=2; o["which"]=fk[w]; o["d"]=d; o["i"]=idx[q]; faulty.push_back(o); }
+    int lo=(w==4)?d*d:d;
+    for(int i=lo;i<=d*d+2;i++){ Json o=Json::object(); o["op"]="factory"; o["t"]=2; o["which"]=fk[w]; o["d"]=d; o["i"]=i; faulty.push_back(o); }   // every index of the window
   } }
   for(size_t f=0;f<faulty.size();f++){
     Json ops=Json::array();
